@@ -189,7 +189,8 @@ func appendU(dst []int, xs ...int) []int {
 
 // EnvSet returns the admissible environmental scores.  gi<0 (group absent) gives the temporal
 // set.  neg reports the region where the specification's adjusted base equation is negative;
-// there the set contains the chain evaluated on the negative tenth, on 0, and 0 itself.
+// there the set contains the chain evaluated on the negative tenth and, when that chain ends
+// in a value that is not positive, 0 (severity is exempt in the whole region).
 // With d1 the adjusted base score is taken from the deviation model D1 instead.
 func (o *V2) EnvSet(bi, ti int, present bool, cdp, td, ri int, d1 bool) (set []int, neg bool) {
 	if !present {
@@ -200,22 +201,28 @@ func (o *V2) EnvSet(bi, ti int, present bool, cdp, td, ri int, d1 bool) (set []i
 		ab = o.AdjD1[bi][ri]
 	}
 	for _, b0 := range ab {
-		cands := []int{b0}
 		if b0 < 0 {
 			neg = true
-			cands = append(cands, 0)
 		}
-		for _, b := range cands {
-			for _, at := range o.Temp[b+Off][ti] {
-				set = appendU(set, o.Env[cdp][td][at+Off]...)
-			}
+		for _, at := range o.Temp[b0+Off][ti] {
+			set = appendU(set, o.Env[cdp][td][at+Off]...)
 		}
 	}
 	if o.AdjNeg[bi][ri] {
 		neg = true
 	}
+	// "where the specification's equation itself is negative the library may report that
+	// negative tenth or 0": 0 is admitted exactly when the chain evaluated on the negative
+	// adjusted base score ends in a value that is not positive.  A chain that clamps the
+	// adjusted base score to 0 and thereby ends in another positive tenth is not admitted
+	// (round 4, C05-A-r4).
 	if neg {
-		set = appendU(set, 0)
+		for _, v := range set {
+			if v <= 0 {
+				set = appendU(set, 0)
+				break
+			}
+		}
 	}
 	return set, neg
 }
